@@ -22,8 +22,11 @@ Nothing here imports ioflo.
 """
 from __future__ import annotations
 
+import collections
 import itertools
 import math
+
+Drive = collections.namedtuple("Drive", "steps finished exc delivered")
 
 
 def cuts(n, k):
@@ -95,8 +98,10 @@ def drive(parsent, pieces, close=False, idle=2, done=None):
     unconsumed remainder.  If close: after the last piece call parsent.close() and parse
     again (peer closed the connection).  `idle` extra parse() calls with no new bytes are
     made while the parser is still unfinished (a service loop keeps polling).
-    Returns (steps, finished, exc) where exc is the exception parse() raised, or None."""
+    Returns Drive(steps, finished, exc, delivered): exc is the exception parse() raised (or None),
+    delivered the number of bytes that had been received when the parser finished (or raised)."""
     steps = 0
+    delivered = 0
     finished = False
     exc = None
     if done is None:
@@ -105,6 +110,7 @@ def drive(parsent, pieces, close=False, idle=2, done=None):
     try:
         for i, p in enumerate(pieces):
             parsent.msg.extend(p)
+            delivered += len(p)
             steps += 1
             parsent.parse()
             if done(parsent):
@@ -132,7 +138,7 @@ def drive(parsent, pieces, close=False, idle=2, done=None):
     # undelivered pieces arrive later: put them in the buffer untouched
     for p in pieces[i + 1:]:
         parsent.msg.extend(p)
-    return steps, finished, exc
+    return Drive(steps, finished, exc, delivered)
 
 
 def drive_gen(raw, gen, pieces, idle=1):
